@@ -46,6 +46,7 @@ import (
 
 	enc "github.com/named-data/ndnd/std/encoding"
 	basic "github.com/named-data/ndnd/std/engine/basic"
+	"github.com/named-data/ndnd/std/engine/dummy"
 	"github.com/named-data/ndnd/std/log"
 	"github.com/named-data/ndnd/std/ndn"
 	spec "github.com/named-data/ndnd/std/ndn/spec_2022"
@@ -107,14 +108,31 @@ type hTimer struct {
 	now      time.Time
 	timers   []*tmr
 	curOwner int
+	// dm != nil: the "dummy" configuration. The engine is then driven by the repository's own
+	// virtual timer (std/engine/dummy.Timer: real Schedule / cancel / MoveForward); `now` only
+	// mirrors its clock for the oracle.
+	dm *dummy.Timer
+	in *inst
 }
 
-func (t *hTimer) Now() time.Time { return t.now }
+func (t *hTimer) Now() time.Time {
+	if t.dm != nil {
+		return t.dm.Now()
+	}
+	return t.now
+}
 func (t *hTimer) Sleep(d time.Duration) {
 	panic("harness timer: Sleep is not used by the code under test")
 }
 func (t *hTimer) Nonce() []byte { return []byte{1, 2, 3, 4, 5, 6, 7, 8} }
 func (t *hTimer) Schedule(d time.Duration, f func()) func() error {
+	if t.dm != nil {
+		in := t.in
+		return t.dm.Schedule(d, func() {
+			f()
+			in.runDeferred("early") // pitLock is free again; MoveForward has not returned yet
+		})
+	}
 	x := &tmr{id: len(t.timers), deadline: t.now.Add(d), f: f, state: tSched, owner: t.curOwner}
 	t.timers = append(t.timers, x)
 	called := false
@@ -152,6 +170,17 @@ type intr struct {
 	entry  any    // identity of the engine's pendInt (white box), nil if unknown
 	node   any    // identity of the PIT node it was inserted in
 	lostBy string // set when the entry stops being reachable from the PIT root while pending
+	// retry: "" | "late" | "early". On a timeout or Nack result the application re-expresses the
+	// Interest once (same name, new nonce; the re-expressed Interest has retry ""). The engine
+	// invokes callbacks with pitLock held, so a callback cannot call Express itself (it would
+	// self-deadlock); like the repository's own retry code (object.Client.ExpressR hands the retry
+	// to its goroutine, dv uses `go`), the callback only queues the retry and it is performed
+	// after the engine call that delivered the result has returned: "late" = after the whole event;
+	// "early" (dummy.Timer only) = as soon as the timeout function has returned, i.e. while
+	// dummy.Timer.MoveForward is still working through its events — the application goroutine
+	// simply won the race against the rest of MoveForward.
+	retry string
+	gen   int
 }
 
 func (x *intr) desc() string {
@@ -163,7 +192,14 @@ func (x *intr) desc() string {
 	if x.dig != "none" {
 		d = "," + x.dig + " digest"
 	}
-	return fmt.Sprintf("Interest(%s%s%s,%v)", x.name, c, d, x.life)
+	r := ""
+	if x.retry != "" {
+		r = ",re-expressed once on timeout/Nack (" + x.retry + ")"
+	}
+	if x.gen > 0 {
+		r += fmt.Sprintf(",re-expression #%d", x.gen)
+	}
+	return fmt.Sprintf("Interest(%s%s%s,%v%s)", x.name, c, d, x.life, r)
 }
 
 type hcall struct {
@@ -196,6 +232,8 @@ type inst struct {
 	viol     []report.Violation
 	seen     map[string]bool
 	hist     []string
+	deferred []*intr // re-expressions queued by callbacks
+	ref      *inst   // dummy configuration only: shadow run of the same events on the harness timer
 }
 
 func (in *inst) bad(clause, key, detail string) {
@@ -244,9 +282,13 @@ func dataFor(name string) *dataPkt {
 	return d
 }
 
-func mkInterest(name enc.Name, cbp bool, life time.Duration) *ndn.EncodedInterest {
+func mkInterest(name enc.Name, cbp bool, life time.Duration, nonce ...uint64) *ndn.EncodedInterest {
 	l := life
-	ei, err := spec.Spec{}.MakeInterest(name, &ndn.InterestConfig{CanBePrefix: cbp, Lifetime: &l}, nil, nil)
+	ic := &ndn.InterestConfig{CanBePrefix: cbp, Lifetime: &l}
+	if len(nonce) > 0 {
+		ic.Nonce = &nonce[0]
+	}
+	ei, err := spec.Spec{}.MakeInterest(name, ic, nil, nil)
 	if err != nil {
 		report.Fatal("MakeInterest(%s): %v", name, err)
 	}
@@ -311,7 +353,9 @@ type cfgT struct {
 	inNames   []string
 	inLives   []int
 	maxIn     int
-	audit     bool // canon audit: no de-duplication (the history is part of the canonical state)
+	retries   []string // extra Express variants whose callback re-expresses once on timeout/Nack ("late", "early")
+	dummy     bool     // drive the engine with the repository's dummy.Timer and shadow it on the harness timer
+	audit     bool     // canon audit: no de-duplication (the history is part of the canonical state)
 }
 
 type sys struct {
@@ -319,9 +363,13 @@ type sys struct {
 	name string
 }
 
-func (s *sys) New() any {
-	in := &inst{face: &hFace{}, tm: &hTimer{now: time.Unix(1000, 0), curOwner: -1},
+func (s *sys) newInst(dm *dummy.Timer) *inst {
+	in := &inst{face: &hFace{}, tm: &hTimer{now: time.Unix(1000, 0), curOwner: -1, dm: dm},
 		attached: map[string]int{}, fibLost: map[string]string{}, seen: map[string]bool{}}
+	in.tm.in = in
+	if dm != nil {
+		in.tm.now = dm.Now()
+	}
 	in.eng = basic.NewEngine(in.face, in.tm, sec.NewSha256Signer(), func(enc.Name, enc.Wire, ndn.Signature) bool { return true })
 	if in.eng == nil {
 		report.Fatal("NewEngine returned nil")
@@ -329,6 +377,19 @@ func (s *sys) New() any {
 	if err := in.eng.Start(); err != nil {
 		report.Fatal("Engine.Start: %v", err)
 	}
+	return in
+}
+
+func (s *sys) New() any {
+	if !s.c.dummy {
+		return s.newInst(nil)
+	}
+	dm := dummy.NewTimer()
+	if dm == nil {
+		report.Fatal("dummy.NewTimer returned nil")
+	}
+	in := s.newInst(dm)
+	in.ref = s.newInst(nil)
 	return in
 }
 
@@ -343,6 +404,9 @@ func (s *sys) Ops(i any) []explore.Op {
 				for _, cb := range c.cbps {
 					for _, l := range c.lives {
 						add("Express(%s,cbp=%v,life=%d,dig=%s)", n, cb, l, d)
+						for _, r := range c.retries {
+							add("Express(%s,cbp=%v,life=%d,dig=%s,retry=%s)", n, cb, l, d, r)
+						}
 					}
 				}
 			}
@@ -370,7 +434,7 @@ func (s *sys) Ops(i any) []explore.Op {
 			}
 		}
 	}
-	if c.adv10 && (sched || len(in.calls) > 0) {
+	if c.adv10 && (sched || len(in.calls) > 0 || (c.dummy && len(in.ints) > 0)) {
 		add("Adv(10)")
 	}
 	if c.advNext && later {
@@ -435,6 +499,9 @@ func (in *inst) callback(x *intr) ndn.ExpressCallbackFunc {
 			kind = "Timeout"
 		}
 		x.res = append(x.res, result{kind: kind, op: in.curOp})
+		if x.retry != "" && len(x.res) == 1 && (kind == "Timeout" || kind == "Nack") {
+			in.deferred = append(in.deferred, x)
+		}
 		if len(x.res) > 1 {
 			in.bad("C20.once", fmt.Sprintf("callback invoked twice: %s result, then %s result", x.res[0].kind, kind),
 				fmt.Sprintf("%s: callback invoked %d times: %v", x.desc(), len(x.res), x.res))
@@ -503,26 +570,11 @@ func (s *sys) step(in *inst, op string) []report.Violation {
 		var l int
 		fmt.Sscanf(a[2], "life=%d", &l)
 		x.life = time.Duration(l) * ms
-		full := x.nm
-		if x.dig != "none" {
-			x.digest = append([]byte{}, dataFor(x.name).digest...)
-			if x.dig == "wrong" {
-				x.digest[0] ^= 0xff
-			}
-			full = append(append(enc.Name{}, x.nm...), enc.Component{Typ: enc.TypeImplicitSha256DigestComponent, Val: x.digest})
+		if len(a) > 4 {
+			x.retry = strings.TrimPrefix(a[4], "retry=")
 		}
 		in.curName = x.name
-		in.ints = append(in.ints, x)
-		in.tm.curOwner = x.id
-		err := in.eng.Express(mkInterest(full, x.cbp, x.life), in.callback(x))
-		in.tm.curOwner = -1
-		if err != nil {
-			report.Fatal("Express(%s) on a running harness face failed: %v", x.name, err)
-		}
-		x.node = in.eng.VerifPitExact(x.nm)
-		if ch := basic.VerifPitChain(x.node); len(ch) > 0 && len(ch[0].Entries) > 0 {
-			x.entry = ch[0].Entries[len(ch[0].Entries)-1]
-		}
+		in.express(x)
 	case "Data":
 		in.curName = a[0]
 		d := dataFor(a[0])
@@ -553,6 +605,11 @@ func (s *sys) step(in *inst, op string) []report.Violation {
 		in.face.onPkt(enc.NewBufferReader(nackWire(a[0])))
 	case "Adv":
 		in.tm.now = in.tm.now.Add(10 * ms)
+		if in.tm.dm != nil {
+			// real MoveForward: runs every event strictly before the new now
+			in.curKind = "timeout"
+			in.tm.dm.MoveForward(10 * ms)
+		}
 	case "AdvNext":
 		var nx time.Time
 		for _, t := range in.tm.timers {
@@ -681,8 +738,53 @@ func (s *sys) step(in *inst, op string) []report.Violation {
 	default:
 		report.Fatal("harness: unknown op %q", op)
 	}
+	in.runDeferred("late")
 	s.track(in)
 	return in.viol
+}
+
+// express hands x to the real engine and records the white-box identities of its PIT entry/node.
+func (in *inst) express(x *intr) {
+	x.id = len(in.ints)
+	x.at = in.tm.now
+	full := x.nm
+	if x.dig != "none" {
+		x.digest = append([]byte{}, dataFor(x.name).digest...)
+		if x.dig == "wrong" {
+			x.digest[0] ^= 0xff
+		}
+		full = append(append(enc.Name{}, x.nm...), enc.Component{Typ: enc.TypeImplicitSha256DigestComponent, Val: x.digest})
+	}
+	in.ints = append(in.ints, x)
+	in.tm.curOwner = x.id
+	var err error
+	if x.gen > 0 {
+		err = in.eng.Express(mkInterest(full, x.cbp, x.life, uint64(x.gen)), in.callback(x))
+	} else {
+		err = in.eng.Express(mkInterest(full, x.cbp, x.life), in.callback(x))
+	}
+	in.tm.curOwner = -1
+	if err != nil {
+		report.Fatal("Express(%s) on a running harness face failed: %v", x.name, err)
+	}
+	x.node = in.eng.VerifPitExact(x.nm)
+	if ch := basic.VerifPitChain(x.node); len(ch) > 0 && len(ch[0].Entries) > 0 {
+		x.entry = ch[0].Entries[len(ch[0].Entries)-1]
+	}
+}
+
+// runDeferred performs the re-expressions queued by callbacks (mode "early": only those of
+// Interests expressed with retry=early; mode "late": everything still queued).
+func (in *inst) runDeferred(mode string) {
+	q := in.deferred
+	in.deferred = nil
+	for _, x := range q {
+		if mode == "early" && x.retry != "early" {
+			in.deferred = append(in.deferred, x)
+			continue
+		}
+		in.express(&intr{name: x.name, nm: x.nm, cbp: x.cbp, life: x.life, dig: x.dig, gen: x.gen + 1})
+	}
 }
 
 // runTimer runs the callback of a fired timer. For the violation keys it notes (white box) whether
@@ -701,6 +803,7 @@ func (in *inst) runTimer(t *tmr) {
 	}
 	t.state = tDone
 	t.f()
+	in.runDeferred("late")
 }
 
 func (in *inst) handler(prefix string) ndn.InterestHandler {
@@ -754,8 +857,86 @@ func (s *sys) track(in *inst) {
 	}
 }
 
-func (s *sys) Apply(i any, op explore.Op) []report.Violation { return s.step(i.(*inst), op.Name) }
-func (s *sys) Do(i any, op explore.Op)                       { s.step(i.(*inst), op.Name) }
+func (s *sys) Apply(i any, op explore.Op) []report.Violation {
+	in := i.(*inst)
+	if op.Name == "Quiesce" {
+		return s.step(in, op.Name)
+	}
+	v := append([]report.Violation{}, s.step(in, op.Name)...)
+	if in.ref != nil {
+		s.step(in.ref, op.Name)
+		if op.Name == "Adv(10)" {
+			refRunDue(in.ref)
+		}
+		v = append(v, diffRef(in, op.Name)...)
+	}
+	return v
+}
+func (s *sys) Do(i any, op explore.Op) { s.Apply(i, op) }
+
+// refRunDue: on the shadow instance, what dummy.Timer.MoveForward documents: every scheduled event
+// whose time is strictly before now fires and runs (deadline order).
+func refRunDue(r *inst) {
+	for {
+		var nx *tmr
+		for _, t := range r.tm.timers {
+			if t.state == tSched && t.deadline.Before(r.tm.now) && (nx == nil || t.deadline.Before(nx.deadline)) {
+				nx = t
+			}
+		}
+		if nx == nil {
+			return
+		}
+		r.runTimer(nx)
+	}
+}
+
+// diffRef: the run on dummy.Timer and the shadow run on the harness timer must have delivered the
+// same results to the same Interests (order inside one event is not compared: the property does
+// not order callbacks of different Interests).
+func diffRef(in *inst, op string) []report.Violation {
+	sig := func(l []*intr) (lines, kinds []string) {
+		for _, x := range l {
+			k := ""
+			for _, r := range x.res {
+				k += r.kind[:1]
+			}
+			lines = append(lines, x.desc()+" -> ["+k+"]")
+		}
+		sort.Strings(lines)
+		for _, ln := range lines {
+			kinds = append(kinds, ln[strings.LastIndex(ln, " -> [")+4:])
+		}
+		return
+	}
+	a, ak := sig(in.ints)
+	b, bk := sig(in.ref.ints)
+	if strings.Join(a, ";") == strings.Join(b, ";") {
+		return nil
+	}
+	ka, kb := "(no such Interest)", "(no such Interest)"
+	for i := 0; i < len(a) || i < len(b); i++ {
+		x, y := "", ""
+		if i < len(a) {
+			x = a[i]
+		}
+		if i < len(b) {
+			y = b[i]
+		}
+		if x != y {
+			if i < len(a) {
+				ka = ak[i]
+			}
+			if i < len(b) {
+				kb = bk[i]
+			}
+			break
+		}
+	}
+	return []report.Violation{{Clause: "C20.timerdiff",
+		Key:    fmt.Sprintf("same events, different callbacks: on dummy.Timer %s, on the harness timer (AfterFunc semantics, due = strictly before now) %s", ka, kb),
+		Detail: fmt.Sprintf("after %s: on dummy.Timer %v, on the harness timer %v", op, a, b)}}
+}
 
 // CheckState: quiescence closure. All remaining timers fire and run (time jumps far ahead); then
 // every expressed Interest must have been resolved exactly once. Destroys the instance.
@@ -763,6 +944,17 @@ func (s *sys) CheckState(i any) []report.Violation {
 	in := i.(*inst)
 	in.viol = nil
 	in.curOp = "quiescence (fired timers run, the remaining ones fire and run on time in deadline order)"
+	if in.tm.dm != nil {
+		// dummy.Timer: two long MoveForward calls run everything that is still scheduled
+		in.curKind, in.curName = "timeout", ""
+		for k := 0; k < 3; k++ {
+			in.tm.now = in.tm.now.Add(time.Hour)
+			in.tm.dm.MoveForward(time.Hour)
+			in.runDeferred("late")
+			in.ref.tm.now = in.ref.tm.now.Add(time.Hour)
+			refRunDue(in.ref)
+		}
+	}
 	// already fired timers run now; the others fire and run on time, in deadline order
 	for k := 0; k < len(in.tm.timers); k++ {
 		if t := in.tm.timers[k]; t.state == tFired {
@@ -788,6 +980,9 @@ func (s *sys) CheckState(i any) []report.Violation {
 		if len(x.res) == 0 {
 			in.bad("C20.once", "callback never invoked although every timer has fired and run", fmt.Sprintf("%s expressed, all timers fired and run, callback count 0", x.desc()))
 		}
+	}
+	if in.ref != nil {
+		in.viol = append(in.viol, diffRef(in, in.curOp)...)
 	}
 	for i := range in.viol {
 		in.viol[i].Replay = map[string]any{"config": s.name, "ops": append(append([]string{}, in.hist...), "Quiesce")}
@@ -818,7 +1013,7 @@ func (in *inst) intrDesc(x *intr) string {
 	for _, r := range x.res {
 		ks += r.kind[:1]
 	}
-	return fmt.Sprintf("%s,%v,%s,%s,[%s],%s", x.name, x.cbp, x.dig, relMs(x.at.Add(x.life).Sub(in.tm.now)), ks, x.lostBy)
+	return fmt.Sprintf("%s,%v,%s,%s,[%s],%s,%s%d", x.name, x.cbp, x.dig, relMs(x.at.Add(x.life).Sub(in.tm.now)), ks, x.lostBy, x.retry, x.gen)
 }
 
 func (in *inst) nodeDesc(byEntry map[any]*intr, n basic.VerifPitNode) string {
@@ -951,9 +1146,15 @@ var configs = map[string]cfgT{
 	// tiny alphabets for deep history searches WITHOUT de-duplication (explore.Config.NoDedup): a bug
 	// that adds hidden state no canonical form can see (cached node pointer, reused scratch slice)
 	// cannot be pruned away there
-	"tiny": {names: n2, cbps: []bool{false}, lives: []int{10}, digs: []string{"none"}, maxInt: 4,
+	"tiny": {names: n2, cbps: []bool{false}, lives: []int{10}, digs: []string{"none"}, maxInt: 4, retries: []string{"late"},
 		dataNames: n2, nackNames: []string{"/a"}, advNext: true},
 	"tinyh": {prefixes: n2, inNames: n2, inLives: []int{10}, maxIn: 2, adv10: true},
+	// the same small alphabet on the repository's own virtual timer (dummy.Timer): real Schedule,
+	// cancel and MoveForward in 10 ms steps, which land exactly ON lifetime+TimeoutMargin (20/30 ms)
+	// before passing it; shadowed event by event on the harness timer (differential). dummy.Timer
+	// keeps state no canonical form here covers (slot table), hence no de-duplication.
+	"dummy": {dummy: true, names: n2, cbps: []bool{false}, lives: []int{10, 20}, digs: []string{"none"}, maxInt: 3, retries: []string{"late", "early"},
+		dataNames: n2, nackNames: []string{"/a"}, adv10: true},
 	// both sides at once (thorough tier)
 	"mixed": {names: n2, cbps: []bool{false, true}, lives: []int{10}, digs: []string{"none"}, maxInt: 2,
 		dataNames: n2, lpData: []string{"tok"}, nackNames: n2, advNext: true, adv10: true, split: true,
@@ -1000,11 +1201,12 @@ func main() {
 				c = append(c, explore.Config{Name: x.n, MaxDepth: x.d, MaxDev: -1})
 			}
 			// history searches without de-duplication (both tiers), last: they take what budget is left
-			hd, hh := 8, 8
+			hd, hh, dd := 6, 8, 5
 			if th {
-				hd, hh = 10, 10
+				hd, hh, dd = 10, 10, 7
 			}
-			c = append(c, explore.Config{Name: "tiny i=4 in=0", MaxDepth: hd, MaxDev: -1, NoDedup: true},
+			c = append(c, explore.Config{Name: "dummy i=3 in=0", MaxDepth: dd, MaxDev: -1, NoDedup: true},
+				explore.Config{Name: "tiny i=4 in=0", MaxDepth: hd, MaxDev: -1, NoDedup: true},
 				explore.Config{Name: "tinyh i=0 in=2", MaxDepth: hh, MaxDev: -1, NoDedup: true})
 			return c
 		},
